@@ -14,9 +14,18 @@ let decl_of_case (w : string list) : decl * odecl list =
     let ng = List.length gdefs in
     let per_group = Array.make (ng + 1) [] in
     let longs = ref [] in
+    (* pos is 0 | 1 | a<k>, optionally followed by ":<hist>": the parse() history is no input of the usage text *)
+    let pos = List.hd (fields pos) in
+    if not (pos = "0" || pos = "1" || (String.length pos > 1 && pos.[0] = 'a')) then raise Bad_case;
+    let pos = if pos = "0" || pos = "a0" then "0" else "1" in
+    (* options with an upper-case kind letter are declared late (after a first usage() call): they come after the
+       others in their group's declaration order, and that is all the difference *)
+    let is_late o = o <> "" && o.[0] >= 'A' && o.[0] <= 'Z' in
+    let opts = List.filter (fun o -> not (is_late o)) opts @ List.filter is_late opts in
     List.iter (fun o ->
         match fields o with
         | [k; gi; name; short; descr; env; metavar; dflt; flag; rank] ->
+          let k = String.lowercase_ascii k in
           let gi = int_of_string gi in
           if gi < 0 || gi > ng then raise Bad_case;
           let b = { b_name = str_of_hex name;
